@@ -183,8 +183,62 @@ func c01NormLess(e ast.Expr, slice string) string {
 // given, equal to less after renaming). Returns the sort call.
 func c01SortedAfterFill(fd *ast.FuncDecl, sortFun, less string) (*ast.CallExpr, bool) {
 	return c01SortedAfterFillP(fd, sortFun, func(call *ast.CallExpr, v string) bool {
-		return less == "" || (len(call.Args) == 2 && c01NormLess(call.Args[1], v) == less)
+		if less == "" || len(call.Args) != 2 {
+			return less == ""
+		}
+		got := c01NormLess(call.Args[1], v)
+		if exprText(call.Fun) == sortFun {
+			return got == less
+		}
+		// the same order written for slices.SortFunc: the comparator gets the elements, not the indices
+		el := strings.NewReplacer("S[I]", "I", "S[J]", "J").Replace(less) // "I.String() < J.String()"
+		if a, b, ok := strings.Cut(el, " < "); ok {
+			return got == "strings.Compare("+a+", "+b+")" || got == "cmp.Compare("+a+", "+b+")"
+		}
+		return false
 	})
+}
+
+// equivalent spellings of one sort: sort.Strings(v) = slices.Sort(v); sort.Slice(v, less) = slices.SortFunc(v, three-way form of less)
+func c01SortAlternatives(sortFun string) []string {
+	switch sortFun {
+	case "sort.Strings":
+		return []string{"sort.Strings", "slices.Sort"}
+	case "sort.Slice":
+		return []string{"sort.Slice", "slices.SortFunc"}
+	}
+	return []string{sortFun}
+}
+
+// c01CollectedFromMap: `v := slices.Collect(maps.Keys(m))` / maps.Values / slices.AppendSeq(v0, maps.Keys(m)) — the library form of
+// "fill a slice by ranging over a map": names with the end position of the assignment
+func c01CollectedFromMap(fd *ast.FuncDecl) map[string]token.Pos {
+	out := map[string]token.Pos{}
+	ast.Inspect(fd, func(n ast.Node) bool {
+		as, ok := n.(*ast.AssignStmt)
+		if !ok || len(as.Lhs) != 1 || len(as.Rhs) != 1 {
+			return true
+		}
+		c, ok := as.Rhs[0].(*ast.CallExpr)
+		if !ok {
+			return true
+		}
+		f := exprText(c.Fun)
+		var seq ast.Expr
+		switch {
+		case f == "slices.Collect" && len(c.Args) == 1:
+			seq = c.Args[0]
+		case f == "slices.AppendSeq" && len(c.Args) == 2:
+			seq = c.Args[1]
+		}
+		if sc, ok := seq.(*ast.CallExpr); ok {
+			if g := exprText(sc.Fun); (g == "maps.Keys" || g == "maps.Values") && len(sc.Args) == 1 {
+				out[exprText(as.Lhs[0])] = as.End()
+			}
+		}
+		return true
+	})
+	return out
 }
 
 func c01SortedAfterFillP(fd *ast.FuncDecl, sortFun string, accept func(call *ast.CallExpr, v string) bool) (*ast.CallExpr, bool) {
@@ -192,24 +246,37 @@ func c01SortedAfterFillP(fd *ast.FuncDecl, sortFun string, accept func(call *ast
 		return nil, false
 	}
 	var found *ast.CallExpr
+	try := func(v string, after token.Pos) bool {
+		for _, sf := range c01SortAlternatives(sortFun) {
+			if call, ok := c01Call(fd, sf, v, after); ok && accept(call, v) {
+				found = call
+				return true
+			}
+		}
+		return false
+	}
 	ast.Inspect(fd, func(n ast.Node) bool {
 		r, ok := n.(*ast.RangeStmt)
 		if !ok || found != nil {
 			return true
 		}
 		for _, v := range c01AppendedIn(r) {
-			if call, ok := c01Call(fd, sortFun, v, r.End()); ok && accept(call, v) {
-				found = call
+			if try(v, r.End()) {
 				return false
 			}
 		}
 		return true
 	})
+	if found == nil {
+		for v, end := range c01CollectedFromMap(fd) {
+			if try(v, end) {
+				break
+			}
+		}
+	}
 	return found, found != nil
 }
 
-// c01FromSetsList: the identifier passed as argument idx of the call to method
-// `method` in fd is assigned from a sets.List(...) call in fd.
 func c01FromSetsList(fd *ast.FuncDecl, method string, idx int) bool {
 	if fd == nil {
 		return false
